@@ -211,11 +211,15 @@ func genHistory(w *World, seed uint64, cfg GenCfg, ops io.Writer, obs io.Writer)
 		// downtime plan (only while at least three validators are active, so that jailing never
 		// empties the set by itself)
 		absent := map[int]bool{}
+		minActive, downPct := 3, 14
+		if cfg.Mode == "guard" {
+			minActive, downPct = 2, 30
+		}
 		if cfg.Mode != "calm" {
 			if g.downLeft == 0 {
 				g.downKey = -1
-				if g.R.P(14) && s.NBonded >= 3 {
-					if set := r.Sets[h-1]; set != nil && len(set.Validators) > 2 {
+				if g.R.P(downPct) && s.NBonded >= minActive {
+					if set := r.Sets[h-1]; set != nil && len(set.Validators) >= minActive {
 						v := set.Validators[g.R.N(len(set.Validators))]
 						g.downKey = w.KeyByConsAddr(v.Address)
 						g.downLeft = 3 + g.R.N(3)
@@ -223,7 +227,7 @@ func genHistory(w *World, seed uint64, cfg GenCfg, ops io.Writer, obs io.Writer)
 				}
 			}
 			if g.downKey >= 0 {
-				if s.NBonded >= 3 {
+				if s.NBonded >= minActive {
 					absent[g.downKey] = true
 				}
 				g.downLeft--
@@ -232,6 +236,20 @@ func genHistory(w *World, seed uint64, cfg GenCfg, ops io.Writer, obs io.Writer)
 				if set := r.Sets[h-1]; set != nil && len(set.Validators) > 2 {
 					absent[w.KeyByConsAddr(set.Validators[g.R.N(len(set.Validators))].Address)] = true
 				}
+			}
+		}
+		// a block exists only if more than two thirds of the voting power signed it: drop the absences
+		// when they would add up to a third or more of the set
+		if set := r.Sets[h-1]; set != nil && len(absent) > 0 {
+			var tot, abs int64
+			for _, v := range set.Validators {
+				tot += v.VotingPower
+				if absent[w.KeyByConsAddr(v.Address)] {
+					abs += v.VotingPower
+				}
+			}
+			if abs*3 >= tot {
+				absent = map[int]bool{}
 			}
 		}
 		b.Votes = r.VotesFor(h, absent)
@@ -411,6 +429,9 @@ func modeSalt(m string) uint64 {
 	}
 	if m == "calm" {
 		return 700001
+	}
+	if m == "guard" {
+		return 900007
 	}
 	return 0
 }
